@@ -4,9 +4,11 @@
 (* molecules, build files = sequences of distinct entries (three possible templates, two possible volume lines).  *)
 EXTENDS Templates, Json, SequencesExt
 G(n, nm, ed) == [n |-> n, nm |-> nm, ed |-> ed]
-MCContent == ("k1" :> [rn |-> "RA", g |-> G(2, <<"A", "B">>, {<<1, 2>>}), u |-> << <<0, 0, 0>>, <<2, 0, 0>> >>]) @@
-             ("k2" :> [rn |-> "RA", g |-> G(3, <<"A", "B", "C">>, {<<1, 2>>, <<2, 3>>}), u |-> << <<0, 0, 0>>, <<2, 0, 0>>, <<2, 1, 0>> >>]) @@
-             ("k3" :> [rn |-> "RB", g |-> G(3, <<"A", "B", "C">>, {<<1, 2>>, <<1, 3>>}), u |-> << <<0, 0, 0>>, <<0, 0, 3>>, <<0, 3, 1>> >>])
+\* a residue without virtual sites whose edges are bonds; vsd: virtual-site definitions [kind, site, from, p] (atom indices, rational parameters)
+Plain == [hasvs |-> FALSE, bonded |-> TRUE, vsd |-> <<>>, settles |-> FALSE]
+MCContent == ("k1" :> ([rn |-> "RA", g |-> G(2, <<"A", "B">>, {<<1, 2>>}), u |-> << <<0, 0, 0>>, <<2, 0, 0>> >>] @@ Plain)) @@
+             ("k2" :> ([rn |-> "RA", g |-> G(3, <<"A", "B", "C">>, {<<1, 2>>, <<2, 3>>}), u |-> << <<0, 0, 0>>, <<2, 0, 0>>, <<2, 1, 0>> >>] @@ Plain)) @@
+             ("k3" :> ([rn |-> "RB", g |-> G(3, <<"A", "B", "C">>, {<<1, 2>>, <<1, 3>>}), u |-> << <<0, 0, 0>>, <<0, 0, 3>>, <<0, 3, 1>> >>] @@ Plain))
 KIds == {"k1", "k2", "k3"}
 TEnt(k) == [e |-> "T", k |-> k, rn |-> MCContent[k].rn, v |-> 0]
 VEnt(rn, v) == [e |-> "V", k |-> "", rn |-> rn, v |-> v]
@@ -23,13 +25,13 @@ MCBuildDev == DistinctSeqs({ TEnt("k1"), TEnt("k2"), VEnt("RA", 770) }, 3)
 
 \* ---- instance with LARGE residues (>= 16 atoms): kL (RL, 16 atoms: a chain of 12 with four branches), kM (RL too, kL with two more atoms),
 \* k1 as small control; the key function of the code must not depend on the call site whatever the size of the residue
-MCContentL == ("k1" :> [rn |-> "RA", g |-> G(2, <<"A", "B">>, {<<1, 2>>}), u |-> << <<0, 0, 0>>, <<2, 0, 0>> >>]) @@
-              ("kL" :> [rn |-> "RL", g |-> G(16, <<"L1", "L2", "L3", "L4", "L5", "L6", "L7", "L8", "L9", "L10", "L11", "L12", "L13", "L14", "L15", "L16">>,
+MCContentL == ("k1" :> ([rn |-> "RA", g |-> G(2, <<"A", "B">>, {<<1, 2>>}), u |-> << <<0, 0, 0>>, <<2, 0, 0>> >>] @@ Plain)) @@
+              ("kL" :> ([rn |-> "RL", g |-> G(16, <<"L1", "L2", "L3", "L4", "L5", "L6", "L7", "L8", "L9", "L10", "L11", "L12", "L13", "L14", "L15", "L16">>,
                                              {<<1, 2>>, <<2, 3>>, <<3, 4>>, <<4, 5>>, <<5, 6>>, <<6, 7>>, <<7, 8>>, <<8, 9>>, <<9, 10>>, <<10, 11>>, <<11, 12>>, <<3, 13>>, <<6, 14>>, <<9, 15>>, <<12, 16>>}),
-                        u |-> << <<1, 1, 0>>, <<2, 0, 0>>, <<3, 1, 0>>, <<4, 0, 0>>, <<5, 1, 0>>, <<6, 0, 0>>, <<7, 1, 0>>, <<8, 0, 0>>, <<9, 1, 0>>, <<10, 0, 0>>, <<11, 1, 0>>, <<12, 0, 0>>, <<3, 0, 2>>, <<6, 0, 2>>, <<9, 0, 2>>, <<12, 0, 2>> >>]) @@
-              ("kM" :> [rn |-> "RL", g |-> G(18, <<"L1", "L2", "L3", "L4", "L5", "L6", "L7", "L8", "L9", "L10", "L11", "L12", "L13", "L14", "L15", "L16", "L17", "L18">>,
+                        u |-> << <<1, 1, 0>>, <<2, 0, 0>>, <<3, 1, 0>>, <<4, 0, 0>>, <<5, 1, 0>>, <<6, 0, 0>>, <<7, 1, 0>>, <<8, 0, 0>>, <<9, 1, 0>>, <<10, 0, 0>>, <<11, 1, 0>>, <<12, 0, 0>>, <<3, 0, 2>>, <<6, 0, 2>>, <<9, 0, 2>>, <<12, 0, 2>> >>] @@ Plain)) @@
+              ("kM" :> ([rn |-> "RL", g |-> G(18, <<"L1", "L2", "L3", "L4", "L5", "L6", "L7", "L8", "L9", "L10", "L11", "L12", "L13", "L14", "L15", "L16", "L17", "L18">>,
                                              {<<1, 2>>, <<2, 3>>, <<3, 4>>, <<4, 5>>, <<5, 6>>, <<6, 7>>, <<7, 8>>, <<8, 9>>, <<9, 10>>, <<10, 11>>, <<11, 12>>, <<3, 13>>, <<6, 14>>, <<9, 15>>, <<12, 16>>, <<13, 17>>, <<14, 18>>}),
-                        u |-> << <<1, 1, 0>>, <<2, 0, 0>>, <<3, 1, 0>>, <<4, 0, 0>>, <<5, 1, 0>>, <<6, 0, 0>>, <<7, 1, 0>>, <<8, 0, 0>>, <<9, 1, 0>>, <<10, 0, 0>>, <<11, 1, 0>>, <<12, 0, 0>>, <<3, 0, 2>>, <<6, 0, 2>>, <<9, 0, 2>>, <<12, 0, 2>>, <<3, 1, 4>>, <<6, 1, 4>> >>])
+                        u |-> << <<1, 1, 0>>, <<2, 0, 0>>, <<3, 1, 0>>, <<4, 0, 0>>, <<5, 1, 0>>, <<6, 0, 0>>, <<7, 1, 0>>, <<8, 0, 0>>, <<9, 1, 0>>, <<10, 0, 0>>, <<11, 1, 0>>, <<12, 0, 0>>, <<3, 0, 2>>, <<6, 0, 2>>, <<9, 0, 2>>, <<12, 0, 2>>, <<3, 1, 4>>, <<6, 1, 4>> >>] @@ Plain))
 TEntL(k) == [e |-> "T", k |-> k, rn |-> MCContentL[k].rn, v |-> 0]
 MCSystemsL == { << <<"kL">> >>, << <<"k1", "kL">> >>, << <<"kL">>, <<"k1", "kL">> >>, << <<"kL", "kM">> >>, << <<"kM">>, <<"kL">> >>,
                 << <<"k1", "kL">>, <<"k1", "kL">> >>, << <<"kL", "kL">> >> }
@@ -39,12 +41,34 @@ MCBuildLDev == DistinctSeqs({ TEntL("kL"), VEnt("RL", 880) }, 2)
 \* deviation run for the processor memory: two molecules sharing a residue, with and without a build file
 MCSystemsShare == { << <<"k1">>, <<"k1", "k2">> >>, << <<"k1", "k2">>, <<"k1", "k2">> >>, << <<"k3">> >> }
 
+\* ---- instance with residues that have NO bond, constraint, angle or improper of their own, only virtual-site definitions
+\* (and [ settles ] / nothing): kW four-site water (site = virtual_sites3 of the three atoms, [ settles ]), kI a bead with a stacked
+\* virtual_sitesn site, kT a virtual_sites2 site between two unbonded atoms, kO an out-of-plane site (3out); controls: kC (constraint-free
+\* bonded triangle with a centre site), k1.  The minimiser has nothing to do for kW, kI, kT, kO - their sites must be constructed all the same.
+VsOnly(d, st) == [hasvs |-> TRUE, bonded |-> FALSE, vsd |-> <<d>>, settles |-> st]
+VSD(kind, site, from, p) == [kind |-> kind, site |-> site, from |-> from, p |-> p]
+MCContentV == ("k1" :> ([rn |-> "RA", g |-> G(2, <<"A", "B">>, {<<1, 2>>}), u |-> << <<0, 0, 0>>, <<2, 0, 0>> >>] @@ Plain)) @@
+              ("kW" :> ([rn |-> "RW", g |-> G(4, <<"OW", "HW1", "HW2", "MW">>, {}), u |-> << <<0, 0, 0>>, <<1, 0, 0>>, <<0, 1, 0>>, <<1, 1, 0>> >>]
+                       @@ VsOnly(VSD("3", 4, <<1, 2, 3>>, << <<1, 8>>, <<1, 8>> >>), TRUE))) @@
+              ("kI" :> ([rn |-> "RI", g |-> G(2, <<"BB", "QS">>, {}), u |-> << <<0, 0, 0>>, <<0, 0, 1>> >>]
+                       @@ VsOnly(VSD("n", 2, <<1>>, <<>>), FALSE))) @@
+              ("kT" :> ([rn |-> "RT", g |-> G(3, <<"T1", "T2", "TV">>, {}), u |-> << <<0, 0, 0>>, <<1, 0, 0>>, <<0, 1, 0>> >>]
+                       @@ VsOnly(VSD("2", 3, <<1, 2>>, << <<3, 10>> >>), FALSE))) @@
+              ("kO" :> ([rn |-> "RO", g |-> G(4, <<"O1", "O2", "O3", "OV">>, {}), u |-> << <<0, 0, 0>>, <<1, 0, 0>>, <<0, 1, 0>>, <<0, 0, 1>> >>]
+                       @@ VsOnly(VSD("3out", 4, <<1, 2, 3>>, << <<1, 5>>, <<3, 10>>, <<3, 2>> >>), FALSE))) @@
+              ("kC" :> ([rn |-> "RC", g |-> G(4, <<"C1", "C2", "C3", "CV">>, {<<1, 2>>, <<1, 3>>, <<2, 3>>}), u |-> << <<0, 0, 0>>, <<1, 0, 0>>, <<0, 1, 0>>, <<0, 0, 1>> >>]
+                       @@ [hasvs |-> TRUE, bonded |-> TRUE, vsd |-> << VSD("n", 4, <<1, 2, 3>>, <<>>) >>, settles |-> FALSE]))
+MCSystemsV == { << <<"kW">> >>, << <<"kW">>, <<"kW">> >>, << <<"kI", "k1">> >>, << <<"kT", "kO">> >>, << <<"kC", "kW">>, <<"kI">> >>, << <<"kO">>, <<"k1", "kT">> >> }
+MCBuildV == { <<>>, << VEnt("RW", 610) >>, << VEnt("RI", 450), [e |-> "T", k |-> "k1", rn |-> "RA", v |-> 0] >> }
+MCSystemsVDev == { << <<"kC", "kW">>, <<"kI">> >> }
+
 \* ---- S->I export: the final tables of every behaviour
 COut(k) == [rn |-> Content[k].rn, nm |-> Content[k].g.nm,
-            ed |-> SetToSortSeq(Content[k].g.ed, LAMBDA a, b : a[1] < b[1] \/ (a[1] = b[1] /\ a[2] < b[2])), u |-> Content[k].u]
+            ed |-> SetToSortSeq(Content[k].g.ed, LAMBDA a, b : a[1] < b[1] \/ (a[1] = b[1] /\ a[2] < b[2])), u |-> Content[k].u,
+            hasvs |-> Content[k].hasvs, bonded |-> Content[k].bonded, vsd |-> Content[k].vsd, settles |-> Content[k].settles]
 \* the tables are read at the key the residues of content k CARRY (TagKey), i.e. the template and size a residue is mapped to
 KOut(k) == LET h == TagKey(k) IN
-           [tsrc |-> tmpl[h].src, vsrc |-> vols[h].src, v |-> vols[h].v, ngen |-> ngen[h],
+           [tsrc |-> tmpl[h].src, vsrc |-> vols[h].src, v |-> vols[h].v, ngen |-> ngen[h], vs |-> tmpl[h].vs,
             tnum |-> [i \in 1..Len(Content[k].u) |-> Stored(h)[i].num], tden |-> Stored(h)[1].den]
 Case == [sys |-> sys, bld |-> bld, nobld |-> nobld, content |-> [k \in Keys |-> COut(k)], keys |-> [k \in UsedKeys |-> KOut(k)],
          tags |-> [m \in 1..Len(sys) |-> [i \in 1..Len(sys[m]) |-> tag[<<m, i>>]]],
